@@ -48,6 +48,6 @@ def run(ctx):
                      extra_pre=['vi == 1', 'b == (a + 3) %% %d' % N, 's < 32', 'a % 3 == 0'] if q else ['vi == 1'],
                      bound='two token generators advanced alternately under %s schedules' % ('32 5-bit' if q else 'all 256 8-bit'),
                      realised='texts, schedule'))
-    C.append(xh.Cond(H, 'loading', timeout=200, path_timeout=60, bound='custom-path grammar and version grammar loaded in both orders',
+    C.append(xh.Cond(H, 'loading', timeout=200, path_timeout=60, bound='for each of the 9 versions: the grammar loaded by version is built from that version\'s file, also when a grammar was loaded from an explicit path under the same version before / after',
                      realised='order, version'))
     xh.run_conditions(ctx, C)
